@@ -1,21 +1,12 @@
 ----------------------------- MODULE Trace_Obs -----------------------------
 (***************************************************************************)
-(* Property monitor over traces of the REAL ggrs sessions.                 *)
-(*                                                                         *)
-(* The harness (harness/src/world.rs) writes one ndjson line per API call  *)
-(* / network step.  This specification consumes the lines one by one,      *)
-(* maintains the ghost history of DESIGN.md section 2 (owner-side truth,   *)
-(* last simulation per frame, timeline hashes, per-address event automata, *)
-(* silence clocks) and evaluates the property predicates at every step.    *)
-(* Violations are collected in g.viol and printed as one OBS-RESULT line   *)
-(* when the trace is exhausted; TraceAccepted (POSTCONDITION) demands that *)
-(* every line was consumed.                                                *)
-(*                                                                         *)
-(* It demands exactly what the properties state: it knows nothing about    *)
-(* retry intervals, save order or packet formats, so a behaviour-          *)
-(* preserving change of the implementation cannot raise an alarm here.     *)
+(* Property monitor over traces of the REAL ggrs sessions: consumes the    *)
+(* ndjson lines written by the harness one by one through Monitor!Update   *)
+(* and prints the collected violations as one OBS-RESULT line when the     *)
+(* trace is exhausted; TraceAccepted (POSTCONDITION) demands that every    *)
+(* line was consumed.                                                      *)
 (***************************************************************************)
-EXTENDS Props, TLC, TLCExt, Json, IOUtils, SequencesExt
+EXTENDS Monitor, TLCExt, Json, IOUtils
 
 Rec == ndJsonDeserialize(IOEnv.TRACE)
 
@@ -23,463 +14,6 @@ VARIABLES l,      \* index of the next line to consume
           g       \* ghost state
 
 vars == <<l, g>>
-
-Has(r, k)    == k \in DOMAIN r
-Get(r, k, d) == IF k \in DOMAIN r THEN r[k] ELSE d
-When(c, s)   == IF c THEN s ELSE <<>>
-V(prop, n, code, det) == << <<prop, n, code, det>> >>
-
-MaxViol == 40
-
----------------------------------------------------------------------------
-\* ghost state of one peer
-PeerInit(NP, N, spec) ==
-  [ gf     |-> 0,                       \* ghost game frame
-    gh     |-> HashInit,                \* ghost game hash (recomputed here)
-    sim    |-> [f \in {} |-> <<>>],      \* frame -> inputs of the LAST simulation
-    tl     |-> [f \in {0} |-> HashInit], \* frame -> state hash on the current timeline
-    ver    |-> -1,                      \* frames <= ver are verified final
-    maxSim |-> -1,                      \* highest frame ever simulated
-    stat   |-> [h \in 0..NP-1 |-> <<FALSE, -1>>],
-    conf   |-> -1,
-    cur    |-> IF spec THEN -1 ELSE 0,
-    run    |-> FALSE,
-    fa     |-> 0,
-    saved0 |-> FALSE,
-    heard  |-> [q \in 0..N-1 |-> 1000000],  \* time of the last call that consumed a packet of q
-    sil    |-> [q \in 0..N-1 |-> 0],        \* silence of q measured at p's last call
-    drq    |-> [q \in 0..N-1 |-> FALSE],    \* a disconnect request of q has been consumed
-    evs    |-> [q \in 0..N-1 |-> EvInit],
-    lossy  |-> FALSE,                   \* event queue may have overflowed
-    calls  |-> 0,                       \* ticks/polls since the last drain
-    lastWaitCur |-> -1000,
-    alive  |-> TRUE,
-    nadv   |-> 0 ]
-
-InitRun(c, viol, stats, run) ==
-  LET N  == Len(c.peers)
-      NP == c.players
-      pc == [p \in 0..N-1 |-> c.peers[p+1]]
-      isP2P(p) == pc[p].kind = "p2p"
-      owns(p, h) == isP2P(p) /\ \E i \in 1..Len(pc[p].locals) : pc[p].locals[i] = h
-      owner == [h \in 0..NP-1 |-> CHOOSE p \in 0..N-1 : owns(p, h)]
-  IN [ N |-> N, NP |-> NP,
-       W |-> Get(c, "window", 8),
-       sparse |-> Get(c, "sparse", FALSE),
-       predDefault |-> Get(c, "predictor", "repeat") = "default",
-       desync |-> Get(c, "desync", 0),
-       notify |-> Get(c, "notify", 500),
-       timeout |-> Get(c, "timeout", 2000),
-       maxBehind |-> Get(c, "max_behind", 10),
-       catchup |-> Get(c, "catchup", 1),
-       maxDelay |-> Get(c, "max_delay", 8),
-       corrupt |-> \E p \in 0..N-1 : Has(pc[p], "corrupt_from"),
-       owner |-> owner,
-       isSpec |-> [p \in 0..N-1 |-> ~isP2P(p)],
-       host |-> [p \in 0..N-1 |-> Get(pc[p], "host", 0)],
-       nlocals |-> [p \in 0..N-1 |-> IF isP2P(p) THEN Len(pc[p].locals) ELSE 0],
-       truth |-> [h \in 0..NP-1 |-> TruthInit(Get(pc[owner[h]], "delay", 0))],
-       pr |-> [p \in 0..N-1 |-> PeerInit(NP, N, ~isP2P(p))],
-       run |-> run,
-       viol |-> viol,
-       stats |-> stats ]
-
-Stats0 == [ runs |-> 0, ticks |-> 0, advances |-> 0, resims |-> 0, loads |-> 0, maxDepth |-> 0,
-            stalls |-> 0, predicted |-> 0, corrected |-> 0, specAdv |-> 0, events |-> 0,
-            verified |-> 0, dropsTruth |-> 0, fills |-> 0, discInputs |-> 0, panics |-> 0,
-            notSync |-> 0, delivered |-> 0, dropped |-> 0, dupd |-> 0 ]
-
-G0 == [ N |-> 0, viol |-> <<>>, stats |-> Stats0, run |-> 0 ]
-
-AddViol(gg, vs) ==
-  IF vs = <<>> \/ Len(gg.viol) >= MaxViol THEN gg
-  ELSE [gg EXCEPT !.viol = @ \o [i \in 1..Len(vs) |-> <<gg.run>> \o vs[i]]]
-
-Bump(gg, k, d) == [gg EXCEPT !.stats[k] = @ + d]
-
----------------------------------------------------------------------------
-\* owner-side truth: submissions of a tick line that went through register_local_inputs
-RECURSIVE ApplyIns(_, _, _, _)
-ApplyIns(tr, ins, adds, u) ==
-  IF ins = <<>> THEN tr
-  ELSE LET h == ins[1][1]
-           v == ins[1][2]
-           ok == adds # <<>> /\ adds[1] = "ok" /\ h \in DOMAIN tr
-       IN ApplyIns(IF ok THEN [tr EXCEPT ![h] = Submit(@, u, v)] ELSE tr,
-                   Tail(ins), IF adds = <<>> THEN <<>> ELSE Tail(adds), u)
-
----------------------------------------------------------------------------
-\* Checks on one AdvanceFrame request of a P2P session.
-\* gg: ghost, p: peer, pe: peer ghost (walk accumulator), f: frame, ins, r: line
-RECURSIVE AdvH(_, _, _, _, _, _, _)
-AdvH(gg, p, pe, f, ins, r, h) ==
-  IF h >= gg.NP \/ h >= Len(ins) THEN <<>>
-  ELSE
-    LET v     == ins[h+1][1]
-        s     == ins[h+1][2]
-        t     == gg.truth[h]
-        disc  == r.st[h+1][1]
-        last  == r.st[h+1][2]
-        local == gg.owner[h] = p
-        me ==
-          CASE s = Confirmed ->
-                 When(~TruthHas(t, f), V("C03", r.n, "confirmed-never-submitted", <<p, h, f>>))
-                 \o When(TruthHas(t, f) /\ v # TruthAt(t, f),
-                         V("C03", r.n, "confirmed-wrong-value", <<p, h, f, v, TruthAt(t, f)>>))
-                 \o When(f > last, V("C03", r.n, "confirmed-not-received", <<p, h, f, last>>))
-            [] s = Predicted ->
-                 When(local, V("C03", r.n, "local-input-predicted", <<p, h, f>>))
-                 \o LET exp == IF last = NullFrame \/ f = 0 THEN Default
-                               ELSE IF TruthHas(t, last)
-                                    THEN Predict(gg.predDefault, TruthAt(t, last)) ELSE v
-                    IN When(~local /\ f > last /\ v # exp,
-                            V("C03", r.n, "prediction-not-predictor-of-newest", <<p, h, f, v, exp, last>>))
-            [] s = Disconnected ->
-                 When(v # Default \/ ~disc \/ last >= f,
-                      V("C03", r.n, "disconnected-status-untruthful", <<p, h, f, v, disc, last>>))
-            [] OTHER -> V("C03", r.n, "bad-status", <<p, h, s>>)
-        \* confirmed inputs are final (values; a later Disconnected cut-off is C10's business)
-        fin == When(f <= pe.ver /\ f \in DOMAIN pe.sim /\ s # Disconnected
-                      /\ h < Len(pe.sim[f]) /\ pe.sim[f][h+1][2] # Disconnected
-                      /\ pe.sim[f][h+1][1] # v,
-                    V("C03", r.n, "confirmed-frame-resimulated-with-other-input",
-                      <<p, h, f, pe.sim[f][h+1][1], v>>))
-    IN me \o fin \o AdvH(gg, p, pe, f, ins, r, h + 1)
-
-AdvViol(gg, p, pe, f, ins, r) ==
-  LET first == f > pe.maxSim
-  IN When(Len(ins) # gg.NP, V("C02", r.n, "advance-arity", <<p, f, Len(ins)>>))
-     \o AdvH(gg, p, pe, f, ins, r, 0)
-     \o When(first /\ f - r.conf > gg.W,
-             V("C04", r.n, "new-frame-beyond-prediction-window", <<p, f, r.conf, gg.W>>))
-     \o When(gg.W = 0 /\ \E i \in 1..Len(ins) : ins[i][2] = Predicted,
-             V("C04", r.n, "lockstep-predicted-input", <<p, f>>))
-     \o When(f = 0 /\ first /\ gg.W > 0 /\ ~pe.saved0,
-             V("C02", r.n, "frame0-simulated-before-saved", <<p>>))
-
-\* one request of a P2P request list; acc = [pe, vs, nA, nL, depth]
-ReqStep(gg, p, r, acc, rq) ==
-    LET pe == acc.pe
-        k  == rq[1]
-    IN
-    CASE k = "S" ->
-           LET f == rq[2]
-           IN [acc EXCEPT
-                 !.vs = @ \o When(f # pe.gf, V("C02", r.n, "save-names-wrong-frame", <<p, f, pe.gf>>))
-                          \o When(gg.W = 0, V("C04", r.n, "lockstep-save", <<p, f>>))
-                          \o When(rq[3] # pe.gf \/ rq[4] # pe.gh,
-                                  V("TOOL", r.n, "ghost-game-diverged-at-save", <<p, rq[3], pe.gf, rq[4], pe.gh>>)),
-                 !.pe.saved0 = pe.saved0 \/ f = 0]
-      [] k = "L" ->
-           LET f == rq[2]  lf == rq[3]  lh == rq[4]
-           IN [acc EXCEPT
-                 !.vs = @ \o When(~(f < pe.gf), V("C02", r.n, "load-not-earlier", <<p, f, pe.gf>>))
-                          \o When(lf # f, V("C02", r.n, "cell-holds-other-frame", <<p, f, lf>>))
-                          \o When(lf = f /\ f \in DOMAIN pe.tl /\ lh # pe.tl[f],
-                                  V("C02", r.n, "cell-holds-stale-timeline", <<p, f, lh, pe.tl[f]>>))
-                          \o When(lf = f /\ f \notin DOMAIN pe.tl,
-                                  V("C02", r.n, "load-of-unknown-frame", <<p, f>>))
-                          \o When(pe.gf - f > gg.W, V("C04", r.n, "load-beyond-prediction-window", <<p, f, pe.gf, gg.W>>))
-                          \o When(gg.W = 0, V("C04", r.n, "lockstep-load", <<p, f>>)),
-                 !.pe.gf = IF lf >= 0 THEN lf ELSE f,
-                 !.pe.gh = lh,
-                 !.nL = @ + 1,
-                 !.depth = Max2(@, pe.gf - f)]
-      [] k = "A" ->
-           LET f   == pe.gf
-               ins == rq[2]
-               nh  == Chain(pe.gh, ins)
-               changed == f \in DOMAIN pe.sim /\ \E i \in 1..Min2(Len(ins), Len(pe.sim[f])) : pe.sim[f][i][1] # ins[i][1]
-           IN [acc EXCEPT
-                 !.vs = @ \o AdvViol(gg, p, pe, f, ins, r),
-                 !.pe.sim = [x \in (DOMAIN pe.sim) \cup {f} |-> IF x = f THEN ins ELSE pe.sim[x]],
-                 !.pe.tl  = [x \in (DOMAIN pe.tl) \cup {f + 1} |-> IF x = f + 1 THEN nh ELSE pe.tl[x]],
-                 !.pe.gf = f + 1,
-                 !.pe.gh = nh,
-                 !.pe.maxSim = Max2(pe.maxSim, f),
-                 !.nA = @ + 1,
-                 !.nNew = @ + (IF f > pe.maxSim THEN 1 ELSE 0),
-                 !.nPred = @ + (IF \E i \in 1..Len(ins) : ins[i][2] = Predicted THEN 1 ELSE 0),
-                 !.nDisc = @ + (IF \E i \in 1..Len(ins) : ins[i][2] = Disconnected THEN 1 ELSE 0),
-                 !.nCorr = @ + (IF changed THEN 1 ELSE 0)]
-      [] OTHER -> [acc EXCEPT !.vs = @ \o V("TOOL", r.n, "unknown-request", <<p>>)]
-
-\* C01: frames whose inputs had all arrived before this call are final after it
-RECURSIVE FinalH(_, _, _, _, _, _)
-FinalH(gg, p, pe, f, r, h) ==
-  IF h >= gg.NP THEN <<>>
-  ELSE
-    LET t    == gg.truth[h]
-        disc == r.st[h+1][1]
-        last == r.st[h+1][2]
-        have == f \in DOMAIN pe.sim /\ h < Len(pe.sim[f])
-        v    == pe.sim[f][h+1][1]
-        s    == pe.sim[f][h+1][2]
-        me ==
-          IF ~have THEN V("C01", r.n, "confirmed-frame-never-simulated", <<p, f>>)
-          ELSE IF disc /\ last < f
-               THEN When(s # Disconnected \/ v # Default,
-                         V("C07", r.n, "frame-after-cutoff-not-disconnected-default", <<p, h, f, v, s, last>>))
-               ELSE When(TruthHas(t, f) /\ v # TruthAt(t, f),
-                         V("C01", r.n, "final-simulation-used-wrong-input", <<p, h, f, v, TruthAt(t, f), s>>))
-                    \o When(~TruthHas(t, f) /\ t.lastAdded < f,
-                            V("C01", r.n, "confirmed-frame-without-submitted-input", <<p, h, f>>))
-                    \o When(s = Disconnected,
-                            V("C07", r.n, "frame-at-or-before-cutoff-disconnected", <<p, h, f, last>>))
-    IN me \o FinalH(gg, p, pe, f, r, h + 1)
-
-RECURSIVE FinalF(_, _, _, _, _, _)
-FinalF(gg, p, pe, f, hi, r) ==
-  IF f > hi THEN <<>> ELSE FinalH(gg, p, pe, f, r, 0) \o FinalF(gg, p, pe, f + 1, hi, r)
-
-\* silence bookkeeping for a call (tick/poll) of peer p at time t
-HeardUpdate(pe, r, N) ==
-  LET from(q) == \E i \in 1..Len(r.rxf) : r.rxf[i] = q
-      dr(q)   == Has(r, "rxi") /\ \E i \in 1..Len(r.rxi) : r.rxi[i][1] = q /\ r.rxi[i][4]
-  IN [pe EXCEPT !.sil   = [q \in 0..N-1 |-> IF from(q) THEN 0 ELSE r.t - pe.heard[q]],
-                !.heard = [q \in 0..N-1 |-> IF from(q) THEN r.t ELSE pe.heard[q]],
-                !.drq   = [q \in 0..N-1 |-> pe.drq[q] \/ dr(q)],
-                !.calls = @ + 1]
-
-\* buffer bounds (C18) and stranded outgoing inputs (C11) on a P2P line
-RECURSIVE EpViol(_, _, _, _, _)
-EpViol(gg, p, r, eps, i) ==
-  IF i > Len(eps) THEN <<>>
-  ELSE LET e == eps[i]   \* [addr, pending, recv, pending_checksums, send_queue, event_queue, state]
-           q == e[1]
-           spec == q \in 0..gg.N-1 /\ gg.isSpec[q]
-           bound == IF spec THEN MaxPendingOutput + gg.W + 2
-                    ELSE Min2(MaxPendingOutput + 1, 2 * gg.W + 2 * gg.maxDelay + 8)
-       IN When(e[2] > bound, V("C18", r.n, "pending-output-unbounded", <<p, q, e[2], bound>>))
-          \o When(e[3] > 2 * gg.W + 2, V("C18", r.n, "recv-inputs-unbounded", <<p, q, e[3]>>))
-          \o When(e[4] > MaxChecksumHistory + 1, V("C18", r.n, "pending-checksums-unbounded", <<p, q, e[4]>>))
-          \o When(e[5] # 0, V("C18", r.n, "send-queue-not-flushed", <<p, q, e[5]>>))
-          \o EpViol(gg, p, r, eps, i + 1)
-
-BufViol(gg, p, r) ==
-  IF ~Has(r, "buf") THEN <<>>
-  ELSE When(r.evq > MaxEventQueue, V("C18", r.n, "event-queue-over-100", <<p, r.evq>>))
-       \o When(r.buf.out > gg.maxDelay + 2, V("C18", r.n, "outgoing-inputs-unbounded", <<p, r.buf.out>>))
-       \o When(r.buf.pl > gg.nlocals[p], V("C18", r.n, "pending-local-unbounded", <<p, r.buf.pl>>))
-       \o When(r.buf.ck > MaxChecksumHistory + 1, V("C18", r.n, "checksum-history-unbounded", <<p, r.buf.ck>>))
-       \o EpViol(gg, p, r, r.buf.ep, 1)
-       \o When(\E i \in 1..Len(r.og) : r.og[i] <= r.lso,
-               V("C11", r.n, "outgoing-input-stranded", <<p, r.og, r.lso>>))
-
----------------------------------------------------------------------------
-\* a `tick` line of a P2P session
-TickP2P(gg, r) ==
-  LET p   == r.p
-      pe0 == gg.pr[p]
-      ok  == r.r = "ok"
-      \* submissions count only when advance_frame got past its guards
-      g1  == IF ok THEN [gg EXCEPT !.truth = ApplyIns(@, Get(r, "in", <<>>), Get(r, "add", <<>>), r.cur0)]
-             ELSE gg
-      acc0 == [pe |-> HeardUpdate(pe0, r, gg.N), vs |-> <<>>, nA |-> 0, nL |-> 0, depth |-> 0,
-               nNew |-> 0, nPred |-> 0, nDisc |-> 0, nCorr |-> 0]
-      acc  == IF ok THEN FoldLeft(LAMBDA a, rq : ReqStep(g1, p, r, a, rq), acc0, r.q) ELSE acc0
-      pe1  == acc.pe
-      endV == IF ~ok THEN
-                 When(r.r = "E:NotSynchronized" /\ pe0.run,
-                      V("C12", r.n, "not-synchronized-while-running", <<p>>))
-                 \o When(r.r \notin {"E:NotSynchronized", "E:InvalidRequest", "E:PredictionThreshold"},
-                         V("PANIC", r.n, r.r, <<p>>))
-              ELSE
-                 When(~pe0.run /\ ~r.run, V("C12", r.n, "advanced-while-not-running", <<p>>))
-                 \o When(pe1.gf # r.cur, V("C02", r.n, "game-frame-differs-from-current-frame", <<p, pe1.gf, r.cur>>))
-                 \o When(r.cur - r.cur0 \notin {0, 1}, V("C02", r.n, "current-frame-jump", <<p, r.cur0, r.cur>>))
-                 \o When(acc.nNew > 1, V("C02", r.n, "more-than-one-new-frame", <<p, acc.nNew>>))
-                 \o When(pe1.gf # r.g[1] \/ pe1.gh # r.g[2],
-                         V("TOOL", r.n, "ghost-game-diverged", <<p, pe1.gf, r.g[1], pe1.gh, r.g[2]>>))
-                 \o When(gg.W = 0 /\ acc.nA = 0 /\ r.cur # r.cur0,
-                         V("C04", r.n, "lockstep-stall-moved-frame", <<p, r.cur0, r.cur>>))
-      \* C01 finality: frames confirmed before this call
-      hi   == Min2(pe0.conf, r.cur - 1)
-      finV == IF ok /\ r.run THEN FinalF(g1, p, pe1, pe1.ver + 1, hi, r) ELSE <<>>
-      ver1 == IF ok /\ r.run THEN Max2(pe1.ver, hi) ELSE pe1.ver
-      lo   == Min2(ver1 + 1, r.cur - gg.W - 2) - 1
-      pe2  == [pe1 EXCEPT !.ver = ver1,
-                          !.conf = Max2(@, r.conf),
-                          !.cur = r.cur, !.run = r.run, !.fa = r.fa,
-                          !.stat = [h \in 0..gg.NP-1 |-> r.st[h+1]],
-                          !.lossy = @ \/ r.evq >= MaxEventQueue,
-                          !.sim = [x \in {y \in DOMAIN pe1.sim : y >= lo} |-> pe1.sim[x]],
-                          !.tl  = [x \in {y \in DOMAIN pe1.tl : y >= lo} |-> pe1.tl[x]]]
-      confV == When(r.run /\ r.conf < pe0.conf, V("C03", r.n, "confirmed-frame-decreased", <<p, pe0.conf, r.conf>>))
-      g2 == [g1 EXCEPT !.pr[p] = pe2]
-      \* forget truth nobody needs any more
-      need == [q \in 0..gg.N-1 |->
-                 IF ~g2.pr[q].alive THEN 1000000000
-                 ELSE IF gg.isSpec[q] THEN g2.pr[q].cur ELSE g2.pr[q].ver]
-      tlo == (CHOOSE m \in {need[q] : q \in 0..gg.N-1} : \A q \in 0..gg.N-1 : m <= need[q]) - 1
-      g3 == IF r.n % 16 = 0
-            THEN [g2 EXCEPT !.truth = [h \in 0..gg.NP-1 |-> TruthTrim(g2.truth[h], tlo)]]
-            ELSE g2
-      st1 == [g3.stats EXCEPT !.ticks = @ + 1, !.advances = @ + acc.nNew,
-                              !.resims = @ + (acc.nA - acc.nNew), !.loads = @ + acc.nL,
-                              !.maxDepth = Max2(@, acc.depth),
-                              !.stalls = @ + (IF ok /\ acc.nNew = 0 THEN 1 ELSE 0),
-                              !.predicted = @ + acc.nPred, !.corrected = @ + acc.nCorr,
-                              !.discInputs = @ + acc.nDisc,
-                              !.verified = @ + (ver1 - pe1.ver),
-                              !.notSync = @ + (IF r.r = "E:NotSynchronized" THEN 1 ELSE 0)]
-  IN AddViol([g3 EXCEPT !.stats = st1],
-             acc.vs \o endV \o finV \o confV \o BufViol(gg, p, r))
-
----------------------------------------------------------------------------
-\* a `tick` line of a spectator session (C06)
-RECURSIVE SpecH(_, _, _, _, _, _)
-SpecH(gg, p, f, ins, r, h) ==
-  IF h >= gg.NP \/ h >= Len(ins) THEN <<>>
-  ELSE
-    LET v  == ins[h+1][1]
-        s  == ins[h+1][2]
-        t  == gg.truth[h]
-        hs == gg.pr[gg.host[p]].stat[h]
-        expDisc == hs[1] /\ hs[2] < f
-        me == CASE s = Confirmed ->
-                     When(expDisc, V("C06", r.n, "host-disconnected-player-shown-connected", <<p, h, f>>))
-                     \o When(~expDisc /\ TruthHas(t, f) /\ v # TruthAt(t, f),
-                             V("C06", r.n, "spectator-input-differs-from-host-timeline", <<p, h, f, v, TruthAt(t, f)>>))
-                     \o When(~expDisc /\ ~TruthHas(t, f),
-                             V("C06", r.n, "spectator-input-never-submitted", <<p, h, f>>))
-                [] s = Disconnected ->
-                     When(~expDisc \/ v # Default,
-                          V("C06", r.n, "spectator-disconnected-but-host-connected", <<p, h, f, v>>))
-                [] OTHER -> V("C06", r.n, "spectator-predicted-input", <<p, h, f>>)
-    IN me \o SpecH(gg, p, f, ins, r, h + 1)
-
-SpecReq(gg, p, r, acc, rq) ==
-    IF rq[1] # "A" THEN [acc EXCEPT !.vs = @ \o V("C02", r.n, "spectator-got-save-or-load", <<p>>)]
-    ELSE LET f == acc.pe.gf
-             ins == rq[2]
-             hostConf == gg.pr[gg.host[p]].conf
-         IN [acc EXCEPT
-               !.vs = @ \o SpecH(gg, p, f, ins, r, 0)
-                        \o When(Len(ins) # gg.NP, V("C02", r.n, "advance-arity", <<p, f>>))
-                        \o When(f > hostConf, V("C06", r.n, "spectator-beyond-host-confirmed", <<p, f, hostConf>>)),
-               !.pe.gf = f + 1,
-               !.pe.gh = Chain(acc.pe.gh, ins),
-               !.nA = @ + 1]
-
-TickSpec(gg, r) ==
-  LET p   == r.p
-      pe0 == gg.pr[p]
-      ok  == r.r = "ok"
-      acc0 == [pe |-> HeardUpdate(pe0, r, gg.N), vs |-> <<>>, nA |-> 0]
-      acc == IF ok THEN FoldLeft(LAMBDA a, rq : SpecReq(gg, p, r, a, rq), acc0, r.q) ELSE acc0
-      pe1 == acc.pe
-      behind == r.lrf - r.cur0
-      allowed == IF behind > gg.maxBehind THEN Min2(gg.catchup, behind) ELSE 1
-      endV ==
-        IF ok THEN
-          When(pe1.gf # r.cur + 1, V("C02", r.n, "spectator-frame-gap", <<p, pe1.gf, r.cur>>))
-          \o When(acc.nA > allowed, V("C06", r.n, "spectator-advanced-too-many-frames", <<p, acc.nA, allowed, behind>>))
-          \o When(pe1.gh # r.g[2], V("TOOL", r.n, "ghost-game-diverged", <<p>>))
-          \o When(behind >= SpectatorBuffer + 1, V("C06", r.n, "overwritten-frame-delivered", <<p, behind>>))
-        ELSE
-          When(r.r = "E:SpectatorTooFarBehind" /\ behind < SpectatorBuffer + 1,
-               V("C06", r.n, "too-far-behind-without-overwrite", <<p, behind>>))
-          \o When(r.r = "E:PredictionThreshold" /\ behind >= 1 /\ behind < SpectatorBuffer + 1,
-                  V("C06", r.n, "spectator-stalled-with-buffered-frames", <<p, behind>>))
-          \o When(r.r = "E:NotSynchronized" /\ pe0.run, V("C12", r.n, "not-synchronized-while-running", <<p>>))
-          \o When(r.r \notin {"E:NotSynchronized", "E:PredictionThreshold", "E:SpectatorTooFarBehind"},
-                  V("PANIC", r.n, r.r, <<p>>))
-      pe2 == [pe1 EXCEPT !.cur = r.cur, !.run = r.run,
-                         !.lossy = @ \/ r.evq >= MaxEventQueue,
-                         !.stat = [h \in 0..gg.NP-1 |-> r.st[h+1]]]
-  IN AddViol([gg EXCEPT !.pr[p] = pe2, !.stats.specAdv = @ + acc.nA, !.stats.ticks = @ + 1],
-             acc.vs \o endV \o When(r.evq > MaxEventQueue, V("C18", r.n, "event-queue-over-100", <<p, r.evq>>)))
-
----------------------------------------------------------------------------
-\* an `ev` line: the user drains the event queue
-EvFold(gg, p, r, acc, e) ==
-    LET k == e[1]
-        pe == acc.pe
-        exact == pe.calls = 1 /\ ~pe.lossy     \* drained right after the generating call
-    IN
-    IF k \in {"Sing", "Sed", "Disc", "Intr", "Resu"} THEN
-      LET q  == e[2]
-          s0 == pe.evs[q]
-          s1 == EvStep(s0, k, IF k = "Sing" THEN e[3] ELSE NumSyncRoundTrips, IF k = "Sing" THEN e[4] ELSE 0)
-          ordV == When(~pe.lossy /\ s1[1] = "bad",
-                       V("C12", r.n, "event-out-of-order", <<p, q, k, s0>>))
-          timeV ==
-            When(exact /\ k = "Intr" /\ pe.sil[q] <= gg.notify,
-                 V("C07", r.n, "interrupted-before-notify-delay", <<p, q, pe.sil[q]>>))
-            \o When(exact /\ k = "Disc" /\ pe.sil[q] <= gg.timeout /\ ~pe.drq[q]
-                      /\ ~(gg.isSpec[q] /\ gg.host[q] = p),
-                    V("C07", r.n, "disconnected-before-timeout", <<p, q, pe.sil[q]>>))
-            \o When(exact /\ k = "Intr" /\ e[3] # Max2(gg.timeout - gg.notify, 0),
-                    V("C12", r.n, "interrupted-wrong-remaining-time", <<p, q, e[3]>>))
-      IN [acc EXCEPT !.pe.evs[q] = IF s1[1] = "bad" THEN s0 ELSE s1, !.vs = @ \o ordV \o timeV]
-    ELSE IF k = "Wait" THEN
-      [acc EXCEPT
-         !.vs = @ \o When(e[2] < 3, V("C15", r.n, "wait-recommendation-below-3", <<p, e[2]>>))
-                  \o When(exact /\ e[2] # pe.fa, V("C15", r.n, "wait-skip-differs-from-frames-ahead", <<p, e[2], pe.fa>>))
-                  \o When(exact /\ pe.cur - pe.lastWaitCur < 60,
-                          V("C15", r.n, "wait-recommendations-too-close", <<p, pe.cur, pe.lastWaitCur>>)),
-         !.pe.lastWaitCur = IF exact THEN pe.cur ELSE @]
-    ELSE IF k = "Desy" THEN
-      [acc EXCEPT !.vs = @ \o When(~gg.corrupt, V("C09", r.n, "desync-reported-for-deterministic-game", <<p, e[2], e[3]>>))]
-    ELSE acc
-
-\* after a drain directly following a call: interruptions / disconnects that were due
-RECURSIVE DueV(_, _, _, _)
-DueV(gg, p, pe, q) ==
-  IF q >= gg.N THEN <<>>
-  ELSE LET ph == pe.evs[q][1]
-       IN When(ph = "run" /\ pe.sil[q] > gg.notify /\ gg.notify < gg.timeout,
-               V("C07", 0, "interruption-not-reported", <<p, q, pe.sil[q]>>))
-          \o When(ph \in {"run", "intr"} /\ pe.sil[q] > gg.timeout,
-                  V("C07", 0, "timeout-disconnect-not-reported", <<p, q, pe.sil[q]>>))
-          \o DueV(gg, p, pe, q + 1)
-
-EvLine(gg, r) ==
-  LET p   == r.p
-      pe0 == gg.pr[p]
-      acc == FoldLeft(LAMBDA a, e : EvFold(gg, p, r, a, e), [pe |-> pe0, vs |-> <<>>], r.ev)
-      exact == pe0.calls = 1 /\ ~pe0.lossy
-      due == IF exact THEN DueV(gg, p, acc.pe, 0) ELSE <<>>
-      due2 == [i \in 1..Len(due) |-> <<due[i][1], r.n, due[i][3], due[i][4]>>]
-  IN AddViol([gg EXCEPT !.pr[p] = [acc.pe EXCEPT !.calls = 0], !.stats.events = @ + Len(r.ev)],
-             acc.vs \o due2)
-
----------------------------------------------------------------------------
-PollLine(gg, r) ==
-  LET p == r.p
-      pe0 == gg.pr[p]
-      pe1 == [HeardUpdate(pe0, r, gg.N) EXCEPT
-                !.run = Get(r, "run", @),
-                !.lossy = @ \/ Get(r, "evq", 0) >= MaxEventQueue,
-                !.stat = IF Has(r, "st") THEN [h \in 0..gg.NP-1 |-> r.st[h+1]] ELSE @]
-  IN AddViol([gg EXCEPT !.pr[p] = pe1],
-             When(r.r # "ok", V("PANIC", r.n, r.r, <<p>>))
-             \o (IF gg.isSpec[p] THEN <<>> ELSE BufViol(gg, p, r)))
-
-OtherPeerLine(gg, r) ==
-  \* disc / dly / stats: results are judged by the property-specific monitors
-  LET p == r.p
-      isPanic == Len(r.r) >= 2 /\ SubSeq(r.r, 1, 2) = "P:"
-      g1 == IF r.a = "dly" /\ r.r = "ok" /\ r.h \in DOMAIN gg.truth
-            THEN [gg EXCEPT !.truth[r.h] = SetDelay(@, r.d)] ELSE gg
-      g2 == IF Has(r, "st") THEN [g1 EXCEPT !.pr[p].stat = [h \in 0..gg.NP-1 |-> r.st[h+1]]] ELSE g1
-  IN AddViol(g2, When(isPanic, V("PANIC", r.n, r.r, <<p>>))
-                 \o (IF Has(r, "buf") /\ ~gg.isSpec[p] THEN BufViol(gg, p, r) ELSE <<>>))
-
-Update(gg, r) ==
-  LET a == r.a IN
-  CASE a = "cfg"  -> InitRun(r.cfg, gg.viol, [gg.stats EXCEPT !.runs = @ + 1], gg.run + 1)
-    [] a = "tick" -> IF r.r = "skip" THEN gg
-                     ELSE IF gg.isSpec[r.p] THEN TickSpec(gg, r) ELSE TickP2P(gg, r)
-    [] a = "poll" -> IF r.r = "skip" THEN gg ELSE PollLine(gg, r)
-    [] a = "ev"   -> IF r.r = "skip" THEN gg ELSE EvLine(gg, r)
-    [] a \in {"disc", "dly", "stats", "addonly"} -> IF r.r = "skip" THEN gg ELSE OtherPeerLine(gg, r)
-    [] a = "kill" -> [gg EXCEPT !.pr[r.p].alive = FALSE]
-    [] a = "dlv"  -> Bump(gg, "delivered", 1)
-    [] a = "drop" -> Bump(gg, "dropped", 1)
-    [] a = "dup"  -> Bump(gg, "dupd", 1)
-    [] OTHER -> gg
 
 ---------------------------------------------------------------------------
 Init == l = 1 /\ g = G0
